@@ -5,28 +5,52 @@ PROP = "C06"
 DRIVER = "c06"
 MODEL = "C06"
 MODEL_QUALID = "Model.TimeLimiter.run_script"
-FORMAT = ("script [cancel; dyn; n; T; t_0..t_(n-1); (op a b)*]: cancel bit0 = cancel_running_future(true), bit1 = the builder sets it before the timeout (builder-order glue); a timeout >= 10^15 ms stands for Duration::MAX; dyn 0 = fixed timeout T ms, "
-          "1 = per-request timeout t_i ms for caller i; op 1=Poll a "
-          "2=Drop a 3=Advance a(ms) 4=Complete a b(0 ok,1 err,2 panic) 5=Call a (build the future). "
+FORMAT = ("script [cancel; dyn; n; T; t_0..t_(n-1); (op a b)*]: cancel bit0 = cancel_running_future(true), bit1 = the builder sets it before the timeout "
+          "(builder-order glue), bits 2-3 = how the calls reach the service: 0 each on a fresh clone of one pristine value, 1 all on the SAME service value, "
+          "2 each on a clone of the value used by the previous call, 3 two handles alternately; dyn bit0: 0 = fixed timeout T, 1 = per-request timeout t_i "
+          "for caller i; dyn bit1: the time unit of the script is the microsecond instead of the millisecond; a timeout >= 10^15 stands for Duration::MAX; "
+          "op 1=Poll a 2=Drop a 3=Advance a 4=Complete a b(0 ok,1 err,2 panic) 5=Call a (build the future) 6=Advance a in one step (the harness does not "
+          "walk millisecond by millisecond). "
           "trace: per event [r; val; wake mask; inner-call states base 4 (0 none 1 running 2 finished 3 dropped)] with "
           "r: -1 no poll, 0 pending, 1 Ok, 2 Err(Inner), 3 Err(Timeout), 5 panicked, 9 nothing to poll")
-RULE = ("per caller a plan (first poll instant, inner latency strictly below / exactly at / above the deadline or never, ok/err/panic, "
-        "prompt or late polls (also at/after the deadline with the result already there), optional cancellation, completion before the first poll) merged over 1-4 concurrent callers with "
-        "different per-request or one fixed timeout, both modes, same-instant events in random order; plus uniformly random scripts; "
-        "plus (thorough) all scripts up to length 5 over a two-caller alphabet; non-trivial = some call timed out or resolved at/after a tie")
+RULE = ("per caller a plan (first poll instant, optional Call before it, inner latency strictly below / exactly at / above the deadline or never, or completed "
+        "before the first poll, ok/err/panic, prompt or late polls (also at/after the deadline with the result already there), optional cancellation) merged over "
+        "1-4 (thorough: up to 6) concurrent callers with different per-request or one fixed timeout, both modes, both builder orders, four ways of reaching the service (fresh clone / "
+        "same value / clone of clone / two handles), same-instant events in random order, in three scales: milliseconds up to 30 ms walked ms by ms; "
+        "50 ms .. 1 h timeouts crossed by single clock jumps; microsecond unit with timeouts off the 1 ms timer tick (0, 1, 500, 999, 1001, 1500, 1900 us ...), "
+        "polls inside the tick window; Duration::MAX and 3-year timeouts that never fire; plus uniformly random scripts in each scale; "
+        "plus (thorough) all scripts up to length 5 over a two-caller alphabet in ms (fresh clone and same-value handle) and us units; "
+        "non-trivial = some call timed out or a poll saw both the inner result and the elapsed timer")
 TRUSTED = ["tokio time::timeout (inner future polled before the timer), time::sleep, oneshot, task spawning and the biased select! "
            "(receiver before sleep) are modelled; they are tied to the libraries only by this correspondence run",
+           "tokio's timer resolution: a sleep fires at the first whole-millisecond tick (counted from the start of the runtime) at or after its deadline; "
+           "'at the deadline' is therefore 'at that tick' for timeouts that are not whole milliseconds (model: deadline = tick_up; monitor: Pending or Timeout "
+           "accepted between the deadline and its tick, Timeout before the deadline never)",
            "poll atomicity; the spawned task of non-cancel mode runs to quiescence after every script event"]
-ASSUMPTIONS = ["whole-millisecond instants", "single-threaded deterministic executor: one poll at a time",
-               "inner panics are outside the property (modelled and compared, not claimed)"]
+ASSUMPTIONS = ["instants are whole multiples of the script's time unit (1 ms or 1 us)", "single-threaded deterministic executor: one poll at a time",
+               "inner panics are outside the property (modelled and compared, not claimed)",
+               "what the caller does with a call it cancels itself (drops the future) is outside the property (modelled and compared, not claimed)"]
+# scripts on which the REAL code violates the property (none known)
+KNOWN_DEFECT = []
+
+BIG = 10 ** 15
 
 
 def header(s):
-    cancel, dyn, n, T = (s + [0, 0, 0, 0])[:4]
+    h0, h1, n, T = (s + [0, 0, 0, 0])[:4]
     n = max(0, n)
+    dyn = max(0, h1) % 2
     per = [(s[4 + i] if 4 + i < len(s) else 0) for i in range(n)]
     tm = [max(0, per[i] if dyn else T) for i in range(n)]
-    return (1 if cancel % 2 else 0), n, tm
+    return (1 if max(0, h0) % 2 else 0), n, tm
+
+
+def tick_of(s):
+    return 1000 if len(s) > 1 and (max(0, s[1]) >> 1) & 1 else 1
+
+
+def handle_mode(s):
+    return (max(0, s[0]) >> 2) & 3 if s else 0
 
 
 def events(s):
@@ -36,7 +60,7 @@ def events(s):
     pos = []
     for k in range(0, len(body) - len(body) % 3, 3):
         op, a, b = body[k:k + 3]
-        if op == 3 or (op in (1, 2, 4, 5) and 0 <= a < n):
+        if op in (3, 6) or (op in (1, 2, 4, 5) and 0 <= a < n):
             evs.append((op, a, b))
             pos.append(4 + n + k)
     return cancel, n, tm, evs, pos
@@ -52,39 +76,63 @@ def decode(s, t):
 CODE = {0: 1, 1: 2}
 
 
-def monitor(s, t):
-    d = decode(s, t)
-    if d is None:
-        return "malformed or panicking run: %s" % t[:10]
+def tick_up(g, x):
+    return x if g <= 1 else -((-x) // g) * g
+
+
+# ----------------------------------------------------------------------------------------------
+# The property, and nothing more, over the implementation's trace.
+#
+#   deadline of a call = (start of its clock) + its timeout.  The text does not say where the clock starts: the
+#   monitor accepts a trace if it is right under the reading "at the first poll of the future" OR under the reading
+#   "when call() returns the future" (one reading per trace).
+#   * a poll before the deadline with the inner call unfinished is Pending; a Timeout before the deadline is a violation
+#   * a poll at/after the deadline (at/after its timer tick when the deadline is off the 1 ms grid) with the inner call
+#     unfinished is Timeout
+#   * inner call finished strictly before the deadline: the poll returns its outcome and value, however late the poll
+#   * the FIRST poll of a call may always answer Pending instead, provided it leaves the caller woken when the call is
+#     due or its result is there (an implementation that runs the inner call / the timer in a task of its own needs
+#     one more turn; no time passes)
+#   * inner call finished exactly at the deadline or after it (the caller polled late): its outcome or Timeout - the
+#     property leaves the tie open and an eager implementation enforcing the deadline answers Timeout for the latter
+#   * liveness ("at the deadline", "at the instant it is available"): after every event a pending call that is overdue
+#     or whose inner call has completed has its caller woken
+#   * cancel mode: after a Timeout answer the inner call is not running any more; non-cancel mode: the limiter never drops
+#     the inner call and a completion after the Timeout still runs it to the end
+#   * no inner call before call(); a pending call has made its inner call; a result is only returned for an inner call
+#     that finished
+#   Not stated (pinned by the comparison with the model only): what happens to the inner call of a future the caller
+#   drops, whether inner.call() is evaluated in call() or at the first poll, anything after an inner panic.
+def _check(d, g, reading):
     cancel, n, tm, evt = d
     now = 0
+    made = [None] * n       # instant call() was evaluated (the harness builds the future at the first op 1/2/5)
     first = [None] * n      # instant of first poll
     firstk = [None] * n     # event index of first poll
     comp = [None] * n       # (instant, event index, outcome) of the effective Complete
     state = ["new"] * n     # new | pending | resolved | dropped
+    skip = [False] * n      # inner panic seen: outside the property from then on
+
+    def deadline(j):
+        base = first[j] if reading == "poll" else made[j]
+        return base + tm[j]
+
     for k, (e, o) in enumerate(evt):
         op, a, b = e
         r, val, mask, vec = o
         dig = [(vec >> (2 * j)) & 3 for j in range(n)]
-        if op == 3:
-            t1 = now + max(0, a)
-            for j in range(n):
-                if state[j] == "pending":
-                    dl = first[j] + tm[j]
-                    if now < dl <= t1 and not (mask >> j) & 1:
-                        return "caller %d not woken when its deadline %d passed (event %d)" % (j, dl, k)
-            now = t1
+        if op in (3, 6):
+            now += max(0, a)
         elif op == 4:
             if comp[a] is None:
                 comp[a] = (now, k, b if b in (0, 1) else 2)
-                if state[a] == "pending" and not (mask >> a) & 1:
-                    return "pending caller %d not woken by the completion of its inner call (event %d)" % (a, k)
-        elif op == 2:
+                if comp[a][2] == 2:
+                    skip[a] = True
+        elif op in (1, 2, 5) and made[a] is None:
+            made[a] = now
+        if op == 2:
             if state[a] in ("new", "pending"):
-                was = state[a]
                 state[a] = "dropped"
-                if cancel and was == "pending" and dig[a] not in (3,):
-                    return "cancel mode: caller %d dropped but inner call state %d (event %d)" % (a, dig[a], k)
         elif op == 1:
             if state[a] in ("resolved", "dropped"):
                 if r != 9:
@@ -93,57 +141,80 @@ def monitor(s, t):
                 if state[a] == "new":
                     first[a], firstk[a] = now, k
                     state[a] = "pending"
-                dl = first[a] + tm[a]
-                due = now >= dl
+                dl = deadline(a)
+                late = tick_up(g, dl)
                 c = comp[a]
-                # the inner result can be seen by this poll: cancel mode - as soon as completed;
-                # non-cancel mode - the spawned task starts after the first poll
-                avail = c is not None and (cancel or firstk[a] < k)
-                if c is not None and c[2] == 2:
-                    ok = (r == 5) if (cancel and avail) else (r in (0, 3, 5))   # panics: outside the property
-                    msg = "inner panicked"
-                elif avail and not due:
-                    ok = r == CODE[c[2]] and val == a
-                    msg = "inner finished before the deadline"
-                elif avail and due:
-                    # the result was delivered and had the chance to run before this poll: it wins,
-                    # in both modes, also at the exact tie and when the poll is late
-                    ok = r == CODE[c[2]] and val == a
-                    msg = "inner result already available, deadline reached"
-                elif due:
-                    ok = r == 3
-                    msg = "inner unfinished at/after the deadline"
+                if skip[a]:
+                    allowed, msg = None, ""
+                elif c is None:
+                    if now < dl:
+                        allowed, msg = {0}, "inner unfinished, deadline not reached"
+                    elif now < late:
+                        allowed, msg = {0, 3}, "inner unfinished, deadline reached, its timer tick %d not yet" % late
+                    else:
+                        allowed, msg = {3}, "inner unfinished at/after the deadline"
                 else:
-                    ok = r == 0
-                    msg = "inner unfinished, deadline not reached"
-                if not ok:
-                    if r == 3 and not due:
-                        return "Timeout at %d before the deadline %d of caller %d (event %d)" % (now, dl, a, k)
-                    return "caller %d polled at %d (deadline %d, %s): got r=%d val=%d (event %d)" % (a, now, dl, msg, r, val, k)
+                    res = CODE[c[2]]
+                    done_at = max(c[0], first[a])   # the inner call exists from the first poll (or from call()) on
+                    if done_at < dl:
+                        allowed, msg = {res}, "inner finished before the deadline"
+                    else:
+                        allowed, msg = {res, 3}, "inner finished at/after the deadline"
+                if allowed is not None:
+                    if k == firstk[a]:
+                        # the first poll may need one more turn (an implementation that hands the inner call to a task
+                        # of its own): Pending is accepted if it leaves the caller woken - checked below, after the event
+                        allowed.add(0)
+                    if r not in allowed:
+                        if r == 3 and now < dl:
+                            return "Timeout at %d before the deadline %d of caller %d (event %d)" % (now, dl, a, k)
+                        return "caller %d polled at %d (deadline %d, %s): got r=%d val=%d (event %d)" % (a, now, dl, msg, r, val, k)
+                    if r in (1, 2) and val != a:
+                        return "caller %d got the value %d (event %d)" % (a, val, k)
                 if r != 0:
                     state[a] = "resolved"
-                    if cancel and r == 3 and dig[a] != 3:
-                        return "cancel mode: Timeout for caller %d but the inner future was not dropped (state %d, event %d)" % (a, dig[a], k)
-                    if r in (1, 2) and dig[a] != 2:
-                        return "caller %d got a result but its inner call is in state %d" % (a, dig[a])
-        # inner-call bookkeeping, checked after every event
+                    if not skip[a]:
+                        if cancel and r == 3 and dig[a] == 1:
+                            return "cancel mode: Timeout for caller %d but its inner call is still running (event %d)" % (a, k)
+                        if r in (1, 2) and dig[a] != 2:
+                            return "caller %d got a result but its inner call is in state %d (event %d)" % (a, dig[a], k)
+        # after every event
         for j in range(n):
-            c = comp[j]
-            if first[j] is None:
-                if dig[j] != 0:
-                    return "inner call of caller %d exists before the first poll (event %d)" % (j, k)
+            if skip[j]:
                 continue
-            if dig[j] == 0:
-                return "inner call of caller %d not started by its first poll (event %d)" % (j, k)
-            if not cancel:
-                if dig[j] == 3 and not (c is not None and c[2] == 2):
+            if made[j] is None:
+                if dig[j] != 0:
+                    return "inner call of caller %d exists before call() (event %d)" % (j, k)
+                continue
+            c = comp[j]
+            if state[j] == "pending":
+                if dig[j] == 0:
+                    return "inner call of caller %d not started by its first poll (event %d)" % (j, k)
+                dl = deadline(j)
+                if not (mask >> j) & 1:
+                    if now >= tick_up(g, dl):
+                        return "pending caller %d not woken although its deadline %d has passed (now %d, event %d)" % (j, dl, now, k)
+                    if c is not None:
+                        return "pending caller %d not woken although its inner call has completed (event %d)" % (j, k)
+            if not cancel and state[j] in ("pending", "resolved"):
+                if dig[j] == 3:
                     return "non-cancel mode: inner call of caller %d was dropped (event %d)" % (j, k)
-                if c is not None and c[2] != 2 and dig[j] != 2:
+                if c is not None and dig[j] != 2:
                     return "non-cancel mode: inner call of caller %d completed by the script but not finished (state %d, event %d)" % (j, dig[j], k)
-            else:
-                if dig[j] == 1 and state[j] != "pending":
-                    return "cancel mode: inner call of caller %d still running although the call is %s (event %d)" % (j, state[j], k)
     return None
+
+
+def monitor(s, t):
+    d = decode(s, t)
+    if d is None:
+        return "malformed or panicking run: %s" % t[:10]
+    g = tick_of(s)
+    m = _check(d, g, "poll")
+    if m is None:
+        return None
+    if _check(d, g, "call") is None:
+        return None
+    return m
 
 
 def corpus():
@@ -164,73 +235,134 @@ def corpus():
         # inner panic in both modes
         [1, 0, 1, 10, 0, 1, 0, 0, 4, 0, 2, 1, 0, 0],
         [0, 0, 1, 10, 0, 1, 0, 0, 4, 0, 2, 1, 0, 0],
+        # inner call finishes after the deadline and the caller is polled later still: the code returns the result
+        [1, 0, 1, 10, 0, 1, 0, 0, 3, 15, 0, 4, 0, 0, 3, 5, 0, 1, 0, 0],
+        [0, 0, 1, 10, 0, 1, 0, 0, 3, 15, 0, 4, 0, 0, 3, 5, 0, 1, 0, 0],
+        # all calls on ONE service value, per-request timeouts 5 / 20 / 60000 ms, both modes
+        [5, 1, 3, 0, 5, 20, 60000, 1, 0, 0, 1, 1, 0, 1, 2, 0, 3, 5, 0, 1, 0, 0, 3, 15, 0, 1, 1, 0, 6, 59979, 0, 1, 2, 0, 6, 1, 0, 1, 2, 0],
+        [4, 1, 3, 0, 5, 20, 60000, 1, 0, 0, 1, 1, 0, 1, 2, 0, 3, 5, 0, 1, 0, 0, 3, 15, 0, 1, 1, 0, 6, 59979, 0, 1, 2, 0, 6, 1, 0, 1, 2, 0],
+        # clone of clone / two handles, fixed one-hour timeout crossed by one jump; a 5-minute per-request timeout
+        [9, 0, 2, 3600000, 0, 0, 1, 0, 0, 6, 1800000, 0, 1, 1, 0, 6, 1799999, 0, 1, 0, 0, 6, 1, 0, 1, 0, 0, 1, 1, 0, 6, 1800000, 0, 1, 1, 0],
+        [13, 1, 2, 0, 300000, 1000, 1, 0, 0, 1, 1, 0, 6, 1000, 0, 1, 1, 0, 6, 59000, 0, 1, 0, 0, 6, 239999, 0, 1, 0, 0, 6, 1, 0, 1, 0, 0],
+        # Duration::MAX and a 3-year timeout never fire; the result still comes through
+        [1, 1, 2, 0, 10 ** 18, 10 ** 11, 1, 0, 0, 1, 1, 0, 6, 10 ** 10, 0, 1, 0, 0, 1, 1, 0, 4, 0, 0, 4, 1, 1, 1, 0, 0, 1, 1, 0],
+        [0, 0, 1, 10 ** 18, 0, 1, 0, 0, 6, 10 ** 10, 0, 1, 0, 0, 4, 0, 1, 1, 0, 0],
+        # microsecond unit: 1500 us armed at 0 fires at the 2 ms tick; 999 us armed at 1 us fires at 1 ms; zero timeout off the tick
+        [1, 2, 1, 1500, 0, 1, 0, 0, 3, 1499, 0, 1, 0, 0, 3, 1, 0, 1, 0, 0, 3, 499, 0, 1, 0, 0, 3, 1, 0, 1, 0, 0],
+        [0, 3, 2, 0, 999, 0, 3, 1, 0, 1, 0, 0, 3, 499, 0, 1, 1, 0, 3, 499, 0, 1, 0, 0, 1, 1, 0, 3, 1, 0, 1, 0, 0, 1, 1, 0],
+        # microsecond unit: the inner call finishes between the deadline (1500) and its timer tick (2000)
+        [1, 2, 1, 1500, 0, 1, 0, 0, 3, 1700, 0, 4, 0, 0, 1, 0, 0],
+        [0, 2, 1, 1500, 0, 1, 0, 0, 3, 1700, 0, 4, 0, 1, 3, 300, 0, 1, 0, 0],
     ]
 
 
-def plan_script(rng, maxn=4):
-    cancel = rng.choice([0, 1, 2, 3])   # bit 0: cancel_running_future; bit 1: builder calls it BEFORE the timeout setter
+SCALES = {
+    # name: (tick, fixed timeouts, per-request timeouts, first-poll instants, offsets above the deadline, jump advances)
+    "ms": (1, [0, 1, 5, 10, 10, 20], [0, 1, 3, 5, 10, 10, 20, 30], [0, 0, 1, 2, 5, 7], [1, 1, 2, 5], False),
+    "large": (1, [50, 1000, 60000, 300000, 3600000], [50, 1000, 1000, 60000, 61000, 300000, 3600000, 7200000],
+              [0, 0, 1, 30, 1000, 59999], [1, 1, 50, 60000], True),
+    "us": (1000, [0, 1, 500, 999, 1000, 1001, 1500, 1900, 2500, 10000], [0, 1, 500, 999, 1000, 1001, 1500, 1900, 2000, 2500, 3100],
+           [0, 0, 1, 500, 1000, 1499, 2000], [1, 100, 499, 500, 1000], True),
+}
+
+
+def plan_script(rng, maxn=4, scale=None):
+    scale = scale or rng.choice(["ms", "ms", "large", "us"])
+    g, fixed, pers, fps, above, jumps = SCALES[scale]
+    cancel = rng.choice([0, 1, 2, 3]) + 4 * rng.choice([0, 0, 1, 1, 2, 3])
     dyn = rng.choice([0, 1])
     n = rng.randint(1, maxn)
-    T = rng.choice([0, 1, 5, 10, 10, 20])
-    per = [rng.choice([0, 1, 3, 5, 10, 10, 20, 30]) for _ in range(n)]
+    T = rng.choice(fixed)
+    per = [rng.choice(pers) for _ in range(n)]
+    if rng.random() < 0.12:
+        T = rng.choice([10 ** 18, 10 ** 11])
+    for i in range(n):
+        if rng.random() < 0.08:
+            per[i] = rng.choice([10 ** 18, 10 ** 11, 10 ** 15])
     tm = [per[i] if dyn else T for i in range(n)]
     items = []   # (time, tiebreak, event)
     for i in range(n):
-        fp = rng.choice([0, 0, 1, 2, 5, 7])
+        fp = rng.choice(fps)
         if rng.random() < 0.4:
             items.append((rng.randint(0, fp), rng.random(), (5, i, 0)))
         items.append((fp, rng.random(), (1, i, 0)))
-        dl = fp + tm[i]
-        cls = rng.choice(["below", "below", "at", "at", "above", "never", "early"])
+        never_fires = tm[i] >= 10 ** 10
+        dl = fp + (rng.choice(fixed) if never_fires else tm[i])   # for a timer that never fires: just some instant to plan around
+        late = tick_up(g, dl)
+        cls = rng.choice(["below", "below", "at", "at", "above", "never", "early"] + (["tick", "window"] if g > 1 else []))
         out = rng.choices([0, 1, 2], [5, 4, 1])[0]
         if cls == "below":
-            tc = rng.randint(fp, max(fp, dl - 1))
+            tc = rng.randint(fp, max(fp, dl - 1)) if rng.random() < 0.5 else max(fp, dl - 1)
         elif cls == "at":
             tc = dl
         elif cls == "above":
-            tc = dl + rng.choice([1, 1, 2, 5])
+            tc = dl + rng.choice(above)
         elif cls == "early":
             tc = rng.randint(0, fp)
+        elif cls == "tick":
+            tc = late
+        elif cls == "window":
+            tc = rng.randint(dl, max(dl, late - 1))
         else:
             tc = None
         if tc is not None:
             items.append((tc, rng.random(), (4, i, out)))
         style = rng.choice(["prompt", "prompt", "late", "random"])
         if style == "prompt":
-            pts = [dl] + ([tc] if tc is not None else [])
+            pts = [late] + ([dl] if late != dl else []) + ([tc] if tc is not None else [])
         elif style == "late":
-            pts = [dl + rng.choice([1, 3])] + ([tc + rng.choice([0, 1, 4])] if tc is not None else [])
+            pts = [late + rng.choice(above)] + ([tc + rng.choice([0] + above)] if tc is not None else [])
         else:
-            pts = [rng.randint(fp, dl + 6) for _ in range(rng.randint(1, 4))]
+            pts = [rng.randint(fp, late + above[-1]) for _ in range(rng.randint(1, 4))]
+        if g > 1 and rng.random() < 0.5:
+            pts += [max(fp, late - 1), rng.randint(min(dl, late), late)]
         for p in pts:
             # polls after the event of the same instant (prompt) or in random order
             items.append((p, 2.0 if style == "prompt" else rng.random(), (1, i, 0)))
         if rng.random() < 0.25:
-            items.append((rng.randint(0, dl + 4), rng.random(), (2, i, 0)))
+            items.append((rng.randint(0, dl + above[0]), rng.random(), (2, i, 0)))
         if rng.random() < 0.5:
-            items.append((dl + rng.choice([2, 6, 10]), 3.0, (1, i, 0)))
+            items.append((late + rng.choice(above + [above[-1] * 2]), 3.0, (1, i, 0)))
     items.sort(key=lambda x: (x[0], x[1]))
-    s = [cancel, dyn, n, T] + per
+    s = [cancel, dyn + (2 if g > 1 else 0), n, T] + per
     now = 0
     for (t, _, e) in items:
         if t > now:
-            if rng.random() < 0.3 and t - now > 1:
-                k = rng.randint(1, t - now - 1)
-                s += [3, k, 0, 3, t - now - k, 0]
+            gap = t - now
+            if g > 1:
+                op = rng.choice([3, 6])          # microsecond unit: both move the clock in one step
+            elif jumps or gap > 40:
+                op = 6
             else:
-                s += [3, t - now, 0]
+                op = 3 if rng.random() < 0.8 else 6
+            if rng.random() < 0.3 and gap > 1:
+                k = rng.randint(1, gap - 1)
+                s += [op, k, 0, op, gap - k, 0]
+            else:
+                s += [op, gap, 0]
             now = t
         s += list(e)
     return s
 
 
-def random_script(rng, maxn=4, maxlen=30):
-    cancel = rng.choice([0, 1, 2, 3])   # bit 0: cancel_running_future; bit 1: builder calls it BEFORE the timeout setter
+def random_script(rng, maxn=4, maxlen=30, scale=None):
+    scale = scale or rng.choice(["ms", "ms", "large", "us"])
+    cancel = rng.choice([0, 1, 2, 3]) + 4 * rng.choice([0, 0, 1, 1, 2, 3])
     dyn = rng.choice([0, 1])
     n = rng.randint(1, maxn)
-    T = rng.choice([0, 2, 5, 10, 10 ** 18])                  # 10^18 ms stands for Duration::MAX
-    per = [rng.choice([0, 1, 2, 5, 10, 10 ** 18]) for _ in range(n)]
-    s = [cancel, dyn, n, T] + per
+    if scale == "ms":
+        T = rng.choice([0, 2, 5, 10, 10 ** 18])                  # 10^18 stands for Duration::MAX
+        per = [rng.choice([0, 1, 2, 5, 10, 10 ** 18]) for _ in range(n)]
+        adv = [(3, x) for x in [1, 1, 2, 3, 5, 5, 10]] + [(6, 5), (6, 10)]
+    elif scale == "large":
+        T = rng.choice([50, 1000, 60000, 10 ** 11])
+        per = [rng.choice([50, 100, 1000, 60000, 3600000, 10 ** 18]) for _ in range(n)]
+        adv = [(6, x) for x in [1, 49, 50, 50, 100, 900, 1000, 59000, 60000, 3540000]]
+    else:
+        T = rng.choice([0, 1, 999, 1500, 2000, 10 ** 18])
+        per = [rng.choice([0, 1, 500, 999, 1000, 1001, 1500, 2500]) for _ in range(n)]
+        adv = [(3, x) for x in [1, 1, 499, 500, 500, 999, 1000, 1000, 1001]] + [(6, 500), (6, 1000)]
+    s = [cancel, dyn + (2 if scale == "us" else 0), n, T] + per
     for _ in range(rng.randint(3, maxlen)):
         x = rng.random()
         if x < 0.45:
@@ -238,7 +370,8 @@ def random_script(rng, maxn=4, maxlen=30):
         elif x < 0.52:
             s += [2, rng.randrange(n), 0]
         elif x < 0.75:
-            s += [3, rng.choice([1, 1, 2, 3, 5, 5, 10]), 0]
+            op, a = rng.choice(adv)
+            s += [op, a, 0]
         elif x < 0.95:
             s += [4, rng.randrange(n), rng.choice([0, 0, 1, 1, 2])]
         else:
@@ -246,12 +379,15 @@ def random_script(rng, maxn=4, maxlen=30):
     return s
 
 
-def exhaustive(depth, cancel, T=2, n=2):
-    alpha = [(1, i, 0) for i in range(n)] + [(2, 0, 0)] + [(3, 1, 0), (3, 2, 0)] + \
-            [(4, 0, 0), (4, 1, 1), (4, 0, 2)]
+def exhaustive(depth, cancel, T=2, n=2, us=False):
+    if us:
+        adv, head = [(3, 500, 0), (3, 1000, 0)], [cancel, 3, n, 0, 1500, 700]
+    else:
+        adv, head = [(3, 1, 0), (3, 2, 0)], [cancel, 1, n, 0, T, 1]
+    alpha = [(1, i, 0) for i in range(n)] + [(2, 0, 0)] + adv + [(4, 0, 0), (4, 1, 1), (4, 0, 2)]
     for L in range(1, depth + 1):
         for evs in itertools.product(alpha, repeat=L):
-            s = [cancel, 1, n, 0, T, 1][:4 + n]
+            s = head[:4 + n]
             for e in evs:
                 s += list(e)
             yield s
@@ -260,27 +396,34 @@ def exhaustive(depth, cancel, T=2, n=2):
 def generate(rng, tier):
     out = []
     if tier == "quick":
-        out += [plan_script(rng) for _ in range(1500)]
-        out += [random_script(rng) for _ in range(800)]
-        out += list(exhaustive(2, 0)) + list(exhaustive(2, 1))
+        out += [plan_script(rng) for _ in range(1800)]
+        out += [random_script(rng) for _ in range(900)]
+        out += list(exhaustive(2, 0)) + list(exhaustive(2, 1)) + list(exhaustive(2, 5)) + list(exhaustive(2, 0, us=True)) + list(exhaustive(2, 1, us=True))
     else:
-        out += [plan_script(rng, 4) for _ in range(30000)]
-        out += [random_script(rng, 4, 50) for _ in range(15000)]
-        out += list(exhaustive(5, 0)) + list(exhaustive(5, 1))
+        out += [plan_script(rng, rng.choice([4, 4, 6])) for _ in range(40000)]
+        out += [random_script(rng, rng.choice([4, 4, 6]), 50) for _ in range(20000)]
+        out += list(exhaustive(5, 0)) + list(exhaustive(5, 1)) + list(exhaustive(4, 4)) + list(exhaustive(4, 5))
+        out += list(exhaustive(5, 0, us=True)) + list(exhaustive(5, 1, us=True))
     return out
 
 
+def extended(rng, mism):
+    """search used by bin/check when the correspondence broke without a monitor failure"""
+    return [plan_script(rng, 4) for _ in range(12000)] + [random_script(rng, 4, 40) for _ in range(6000)]
+
+
 def _ties(s, t):
-    """events where a poll saw both the inner result and the elapsed timer"""
+    """events where a poll saw both the inner result and the elapsed timer; exact ties; polls in the tick window"""
     d = decode(s, t)
     if not d:
-        return 0, 0
+        return 0, 0, 0
     cancel, n, tm, evt = d
+    g = tick_of(s)
     now, first, firstk, comp, live = 0, [None] * n, [None] * n, [None] * n, [True] * n
-    ties = exact = 0
+    ties = exact = window = 0
     for k, (e, o) in enumerate(evt):
         op, a, b = e
-        if op == 3:
+        if op in (3, 6):
             now += max(0, a)
         elif op == 4 and comp[a] is None:
             comp[a] = (now, k)
@@ -290,13 +433,15 @@ def _ties(s, t):
             if first[a] is None:
                 first[a], firstk[a] = now, k
             dl = first[a] + tm[a]
-            if comp[a] is not None and now >= dl and (cancel or firstk[a] < k):
+            if dl <= now < tick_up(g, dl):
+                window += 1
+            if comp[a] is not None and now >= tick_up(g, dl) and (cancel or firstk[a] < k):
                 ties += 1
                 if comp[a][0] == dl:
                     exact += 1
             if o[0] != 0:
                 live[a] = False
-    return ties, exact
+    return ties, exact, window
 
 
 def nontrivial(s, t):
@@ -308,24 +453,53 @@ def nontrivial(s, t):
 
 def classify(s, t):
     cancel, n, tm = header(s)
-    out = ["cancel" if cancel else "nocancel", "per_request" if (len(s) > 1 and s[1]) else "fixed", "callers%d" % n]
+    out = ["cancel" if cancel else "nocancel", "per_request" if (len(s) > 1 and max(0, s[1]) % 2) else "fixed", "callers%d" % n,
+           "unit_us" if tick_of(s) > 1 else "unit_ms", "handle_" + ["fresh_clone", "same_value", "clone_of_clone", "two_handles"][handle_mode(s)]]
+    if any(BIG <= x for x in tm):
+        out.append("duration_max")
+    if any(10 ** 10 <= x < BIG for x in tm):
+        out.append("timeout_years")
+    if any(1000 * tick_of(s) <= x < 10 ** 10 for x in tm):
+        out.append("timeout_1s_or_more")
     d = decode(s, t)
     if d:
         rs = set(o[0] for (_, o) in d[3])
         for r, name in ((1, "ok"), (2, "inner_err"), (3, "timeout"), (5, "panic")):
             if r in rs:
                 out.append("saw_" + name)
-        ties, exact = _ties(s, t)
+        ties, exact, window = _ties(s, t)
         if ties:
             out.append("both_ready_poll")
         if exact:
             out.append("exact_tie")
+        if window:
+            out.append("poll_between_deadline_and_tick")
         if any(e[0] == 2 for (e, _) in d[3]):
             out.append("has_cancel")
+        if any(e[0] == 6 for (e, _) in d[3]):
+            out.append("clock_jump")
         if 0 in tm:
             out.append("zero_timeout")
+        seen = set()
+        for (e, _) in d[3]:
+            if e[0] == 5 and e[1] not in seen:
+                out.append("call_before_first_poll")
+                break
+            if e[0] in (1, 2):
+                seen.add(e[1])
         if not cancel and any(((o[3] >> (2 * j)) & 3) == 2 for (_, o) in d[3][-1:] for j in range(n)) and 3 in rs:
             out.append("ran_on_after_timeout")
+        if 3 in rs and any(1000 * tick_of(s) <= x for x in tm):
+            # a timeout of a second or more actually fired
+            now, first = 0, {}
+            for (e, o) in d[3]:
+                if e[0] in (3, 6):
+                    now += max(0, e[1])
+                elif e[0] == 1:
+                    first.setdefault(e[1], now)
+                    if o[0] == 3 and tm[e[1]] >= 1000 * tick_of(s):
+                        out.append("long_timeout_fired")
+                        break
     return out
 
 
@@ -335,3 +509,5 @@ def shrink(s):
     k = len(body) // 3
     for i in range(k):
         yield head + body[:3 * i] + body[3 * i + 3:]
+    if head and head[0] >= 4:
+        yield [head[0] % 4] + head[1:] + body
